@@ -391,10 +391,33 @@ impl Frag {
 }
 
 /// Absolute and relative lock-time values around the unit boundaries.
-pub const AFTER_VALUES: [u32; 7] =
-    [1, 2, 144, 499_999_999, 500_000_000, 500_000_001, 0x7fff_ffff];
-pub const OLDER_VALUES: [u32; 7] =
-    [1, 2, 144, 65_535, (1 << 22) | 1, (1 << 22) | 2, (1 << 22) | 65_535];
+// the first seven of each list are the semantic boundaries (units, maxima); the rest are the
+// boundaries of the script-number encoding (OP_16 / 1 / 2 / 3 / 4 byte pushes and their sign bits)
+pub const AFTER_VALUES: [u32; 20] = [
+    1, 2, 144, 499_999_999, 500_000_000, 500_000_001, 0x7fff_ffff, 16, 17, 127, 128, 255, 256, 32_767, 32_768, 65_536, 8_388_607, 8_388_608, 16_777_216,
+    1_700_000_000,
+];
+pub const OLDER_VALUES: [u32; 19] = [
+    1,
+    2,
+    144,
+    65_535,
+    (1 << 22) | 1,
+    (1 << 22) | 2,
+    (1 << 22) | 65_535,
+    16,
+    17,
+    127,
+    128,
+    255,
+    256,
+    32_767,
+    32_768,
+    (1 << 22) | 16,
+    (1 << 22) | 17,
+    (1 << 22) | 128,
+    (1 << 22) | 32_768,
+];
 
 #[derive(Clone, Debug)]
 pub struct GenCfg {
